@@ -164,7 +164,10 @@ Free(S, x) == S.dev[x].inp = 0 /\ S.dev[x].out = 0
 RECURSIVE WouldTake(_, _, _, _)
 WouldTake(S, x, p, depth) ==
     IF depth > N + 2 THEN FALSE
-    ELSE CASE Kind(x) \in {"gate", "junction"} -> Pred(S, x, p) /\ ~S.dev[x].blocked
+    ELSE CASE Kind(x) = "gpath" -> ~S.dev[x].blocked /\ \E y \in Range(S.down[GInput(x)]) : WouldTake(S, y, p, depth + 1)
+           [] Kind(x) = "goutput" -> S.part[p].gst # <<>> /\
+                                     \E y \in Range(S.down[S.part[p].gst[Len(S.part[p].gst)]]) : WouldTake(S, y, p, depth + 1)
+           [] Kind(x) \in {"gate", "junction"} -> Pred(S, x, p) /\ ~S.dev[x].blocked
                                    /\ \E y \in Range(S.down[x]) : WouldTake(S, y, p, depth + 1)
            [] Kind(x) = "buffer" -> ~S.dev[x].blocked /\ Free(S, x)
                                      /\ (cfg.devs[x].cap = None \/ S.dev[x].level + NLeaves(S, p) <= cfg.devs[x].cap)
@@ -402,7 +405,26 @@ C16(pre, ev, post, aux, jpost) ==
 IsSuffix(a, b) == Len(a) <= Len(b) /\ SubSeq(b, Len(b) - Len(a) + 1, Len(b)) = a
 IsPrefixOf(a, b) == Len(a) <= Len(b) /\ SubSeq(b, 1, Len(a)) = a
 Connected(a, b) == a \in Range(cfg.devs[b].ups)          \* from the configuration, not from the objects
-Routable(h) == \A i \in 1..(Len(h) - 1) : Connected(h[i], h[i + 1])
+InputsOf(P) == {x \in Devs : GInput(P) \in Range(cfg.devs[x].ups)}
+OutputsOf(P) == Range(cfg.devs[GOutput(P)].ups)
+(* walk the history with a stack of entered group paths: plain connection, entering a group through *)
+(* a path (push), or leaving through the path on top of the stack (pop - innermost first)           *)
+(* leaving nested groups: from device cur with the given stack, can the part reach b, and with which stack *)
+RECURSIVE Exit(_, _, _)
+Exit(cur, stack, b) ==
+    IF Connected(cur, b) THEN [ok |-> TRUE, stack |-> stack]
+    ELSE IF stack # <<>> /\ cur \in OutputsOf(stack[Len(stack)])
+         THEN Exit(stack[Len(stack)], SubSeq(stack, 1, Len(stack) - 1), b)      \* innermost first
+    ELSE [ok |-> FALSE, stack |-> stack]
+RECURSIVE Walk(_, _, _)
+Walk(h, i, stack) ==
+    IF i >= Len(h) THEN [ok |-> TRUE, stack |-> stack]
+    ELSE LET a == h[i] b == h[i + 1] IN
+         IF Kind(a) = "gpath"
+         THEN (IF b \in InputsOf(a) THEN Walk(h, i + 1, Append(stack, a)) ELSE [ok |-> FALSE, stack |-> stack])
+         ELSE LET x == Exit(a, stack, b) IN
+              IF x.ok THEN Walk(h, i + 1, x.stack) ELSE [ok |-> FALSE, stack |-> stack]
+Routable(h) == Walk(h, 1, <<>>).ok
 HolderOf(S, p) == {d \in Devs : p \in Range(ItemsOf(S, d)) \/ (Kind(d) = "sink" /\ p \in Range(S.dev[d].collected))}
 SingleSlotKind(d) == Kind(d) \in {"handler", "processor", "sink"}
 C08(pre, ev, post, aux) ==
@@ -418,6 +440,11 @@ C08(pre, ev, post, aux) ==
     \cup C("C08.LeavesShareTheBatchHistory",
            \A b \in DOMAIN post.part : post.part[b].batch =>
                 \A i \in DOMAIN post.part[b].leaves : IsSuffix(post.part[b].hist, post.part[post.part[b].leaves[i]].hist))
+    \cup C("C08.LeavesThroughThePathItEntered",
+           \* the stack of entered group paths the part carries is the one its history implies
+           \A p \in DOMAIN post.part : (HolderOf(post, p) # {} /\ ~post.part[p].batch /\ Routable(post.part[p].hist)
+                                          /\ \A b \in DOMAIN post.part : ~(post.part[b].batch /\ p \in Range(post.part[b].leaves)))
+                  => post.part[p].gst = Walk(post.part[p].hist, 1, <<>>).stack)
     \cup C("C08.HistoryOnlyGrows",
            \A p \in DOMAIN pre.part : IsPrefixOf(pre.part[p].hist, post.part[p].hist))
     \cup C("C08.GatesRespected",
